@@ -160,6 +160,8 @@ type EpochInfo struct {
 
 // Engine runs a SvcCase on a real res.Service inside the simulator.
 type Engine struct {
+	timeActs     int    // time advances in a row (TimeActions)
+	lastTimeStep uint64 // step of the last one
 	Sim       *sched.Sim
 	H         *Hist
 	Case      *SvcCase
